@@ -482,7 +482,37 @@ func (e *Engine) checkExitLocks(st *State, fr *Frame, blk *Block, panicExit bool
 		if want < 0 {
 			want = 0
 		}
-		if blk.First("lock-transfer") != nil {
+		if lt := blk.First("lock-transfer"); lt != nil {
+			// `lock-transfer Class…` — locks of the named classes may be held at exit (they were handed to a goroutine
+			// this function started); every other lock must have been released. Without a class list nothing is checked.
+			allowed := strings.Fields(strings.Join(lt.Words, " ") + " " + lt.Expr)
+			if len(allowed) == 0 {
+				return
+			}
+			kind := "return"
+			if panicExit {
+				kind = "panic"
+			}
+			spawned := false
+			for k := range st.Facts {
+				if strings.HasPrefix(k, "spawned:") {
+					spawned = true // only a path that started a goroutine can have handed a lock over
+				}
+			}
+			g := True
+			for _, l := range st.Locks {
+				ok := false
+				for _, a := range allowed {
+					if l.Class == a && spawned {
+						ok = true
+					}
+				}
+				if !ok {
+					g = False
+				}
+			}
+			e.emitWith(st, fmt.Sprintf("%s/lock-balance:%s", name, kind), "", nil, g,
+				fmt.Sprintf("only transferred locks (%s) are still held on %s (have {%s})", strings.Join(allowed, ", "), kind, locksKey(st.Locks)), e.framePos(fr), []string{"C12"}, nil)
 			return
 		}
 	}
